@@ -172,8 +172,11 @@ func (c Collection) ToFloat64() (float64, error) {
 	case *dtpb.UnsignedInt:
 		return float64(val.GetValue()), nil
 	case *dtpb.Decimal:
-		if d, err := decimal.NewFromString(val.GetValue()); err == nil {
-			return d.InexactFloat64(), nil
+		// through From: it refuses exponents that cannot be handled
+		if d, err := From(val); err == nil {
+			if dec, ok := d.(Decimal); ok {
+				return decimal.Decimal(dec).InexactFloat64(), nil
+			}
 		}
 	}
 	return 0, c.convertErr(v, "float64")
